@@ -90,4 +90,13 @@ def run(ctx):
         ctx.count("sweep:cases")
         check_tree(ctx, {"text": t, "pre": []})
     ctx.info["template_sweep_size"] = len(texts)
+    # bounded-exhaustive small expressions: every tree with <= 2 (quick) / 3 (thorough) binary operators over 6 leaves
+    small = G.small_expressions(2 if ctx.tier == "quick" else 3)
+    for i, t in enumerate(small):
+        if i % ctx.nshards != ctx.shard:
+            continue
+        ctx.count("evaluations")
+        ctx.count("small-exhaustive:cases")
+        check_tree(ctx, {"text": t, "pre": []})
+    ctx.info["small_expressions_exhaustive"] = f"{len(small)} expressions with <= {2 if ctx.tier == 'quick' else 3} binary operators over leaves x y 2 -1 0 0.5"
     hyp_run(ctx, "g-tree", G.tree_case(12 if ctx.tier == "quick" else 24), check_tree, ctx.n(3000, 15000))
